@@ -78,7 +78,13 @@ def pmatch(p, n, b):
 class Pat:
     def __init__(self, src, types, template, ty, mode='eval'):
         self.src = src
-        self.ast = ast.parse(src, mode='eval').body
+        self.stmt_ast = None
+        try:
+            self.ast = ast.parse(src, mode='eval').body
+        except SyntaxError:
+            # a statement pattern that is not an expression (`obj.attr += 1`)
+            self.stmt_ast = ast.parse(src).body[0]
+            self.ast = ast.Constant(value='@@never@@')
         self.types, self.template, self.ty = types, template, ty
 
 
@@ -500,7 +506,7 @@ class FnTranslator:
             return k(env)
         g = guards[0]
         if g[0] == 'fail':
-            return ctx.exc(env, None) if ctx.exc else ctx.ret(self.err(g[1]))
+            return ctx.exc(env, ('class', g[1])) if ctx.exc else ctx.ret(self.err(g[1]))
         if g[0] == 'resx':
             rt = self.cfg['res_types'][g[3]]
             if not ctx.exc:
@@ -512,12 +518,14 @@ class FnTranslator:
             arms = ' '.join('| %s => %s' % (c, ctx.exc(env, None) if ctx.exc else ctx.ret(c)) for c in self.cfg['res_ctors'])
             return '(match %s with Ok %s => %s %s end)' % (g[2], g[1], self.wrap(guards[1:], env, ctx, k), arms)
         if g[0] == 'res':
-            return '(match %s with Err err__ => %s | Ok %s => %s end)' % (
-                g[2], ctx.exc(env, None) if ctx.exc else ctx.ret('(Err err__)'), g[1], self.wrap(guards[1:], env, ctx, k))
+            okc, errc = self.cfg.get('res_names', ('Ok', 'Err'))
+            return '(match %s with %s err__ => %s | %s %s => %s end)' % (
+                g[2], errc, ctx.exc(env, ('err__', self.cfg.get('res_err_type', 'err'))) if ctx.exc else ctx.ret('(%s err__)' % errc), okc, g[1],
+                self.wrap(guards[1:], env, ctx, k))
         _, b, opt, cls = g
         env2 = env.cached(opt, b) if 'v_' not in opt and opt.startswith('nth_error') else env
         return '(match %s with None => %s | Some %s => %s end)' % (
-            opt, ctx.exc(env, None) if ctx.exc else ctx.ret(self.err(cls)), b, self.wrap(guards[1:], env2, ctx, k))
+            opt, ctx.exc(env, ('class', cls)) if ctx.exc else ctx.ret(self.err(cls)), b, self.wrap(guards[1:], env2, ctx, k))
 
     # -- conditions with short-circuit operands that can raise
     def cond(self, test, env, ctx, kt, kf):
@@ -570,6 +578,10 @@ class FnTranslator:
                 elif isinstance(n, ast.Expr):
                     for pat, tgt in self.stmt_patterns:
                         if pmatch(pat.ast, n.value, {}):
+                            add(tgt)
+                elif isinstance(n, ast.stmt):
+                    for pat, tgt in self.stmt_patterns:
+                        if pat.stmt_ast is not None and pmatch(pat.stmt_ast, n, {}):
                             add(tgt)
         return out
 
@@ -624,6 +636,24 @@ class FnTranslator:
                 return self.block(stmts[len(texts):], env.bind(var, term, ty), ctx, k)
         s, rest = stmts[0], stmts[1:]
         krest = lambda e: self.block(rest, e, ctx, k)
+        for pat, tgt in self.stmt_patterns:
+            if pat.stmt_ast is not None and not isinstance(s, ast.Expr):
+                b = {}
+                if pmatch(pat.stmt_ast, s, b):
+                    if tgt not in env.vars or env.vars[tgt]['st'] != 'bound':
+                        refuse('statement pattern target %s unbound' % tgt, s)
+                    guards, subst = [], {}
+                    for mv, sub in b.items():
+                        g, t, ty = self.tr(sub, env)
+                        if pat.types.get(mv) is not None and ty != pat.types[mv]:
+                            refuse('statement pattern %s: %s has type %s' % (pat.src, mv, ty), s)
+                        guards += g
+                        subst[mv] = t
+                    cur = env.vars[tgt]
+                    term = pat.template.format(cur=cur['coq'], **subst)
+                    name = self.mangle(tgt)
+                    return self.wrap(guards, env, ctx, lambda e: '(let %s := %s in %s)' % (
+                        name, term, krest(e.bind(tgt, name, cur['ty']))))
         if isinstance(s, ast.Expr) and isinstance(s.value, ast.Yield):
             if not self.yields or s.value.value is None:
                 refuse('yield in a function the config does not declare as a generator', s)
@@ -828,31 +858,61 @@ class FnTranslator:
             if ty != self.ret_ty or t is None:
                 refuse('return value of type %s (expected %s)' % (ty, self.ret_ty), s)
             return self.wrap(g, env, ctx, lambda e: ctx.ret(self.ok.format(t, **names(e))))
+        if isinstance(s, ast.With):
+            # `with <declared context manager> as h: BODY` = BODY (the config lists the managers without effect on the model)
+            if not all(ast.unparse(it.context_expr) in self.cfg.get('allow_with', []) for it in s.items):
+                refuse('with statement over an undeclared context manager', s)
+            return self.block(list(s.body) + list(rest), env, ctx, k)
         if isinstance(s, ast.Try):
-            # try: BODY  except: HANDLER      (one bare handler, no else / finally)
-            hd = s.handlers[0] if len(s.handlers) == 1 else None
-            typed = hd is not None and hd.type is not None and ast.unparse(hd.type) in self.cfg.get('caught_types', [])
-            if not self.cfg.get('allow_try') or s.orelse or s.finalbody or hd is None \
-                    or (hd.type is not None and not typed) or (hd.name is not None and not typed):
-                refuse('try statement outside the subset (one bare `except:`, or `except T [as e]:` with T declared)', s)
+            # try: BODY  except [T [as e]]: HANDLER ...   (typed handlers first, at most one bare handler last)
+            hs = s.handlers
+            def h_ok(hd, last):
+                if hd.type is None:
+                    return last and hd.name is None
+                return ast.unparse(hd.type) in self.cfg.get('caught_types', [])
+            if not self.cfg.get('allow_try') or s.orelse or s.finalbody or not hs \
+                    or not all(h_ok(hd, i == len(hs) - 1) for i, hd in enumerate(hs)):
+                refuse('try statement outside the subset (handlers `except T [as e]:` with T declared, then at most one '
+                       'bare `except:`; no else / finally)', s)
             if ctx.exc is not None:
                 refuse('nested try', s)
-            h = s.handlers[0].body
-            hctx = Ctx(ret=ctx.ret, brk=ctx.brk, cont=ctx.cont)
-            hctx.in_handler = True
             def on_exc(e, val):
-                # `except T as e`: e is the exception value (a constructor of the mapped call's result type)
-                if hd.name is not None:
+                # val: None (class unknown) | ('class', name) | (term, type) = the exception VALUE of a mapped call
+                def run(hd):
+                    hctx = Ctx(ret=ctx.ret, brk=ctx.brk, cont=ctx.cont)
+                    hctx.in_handler = True
+                    hctx.exc_term = val[0] if val is not None and val[0] != 'class' else None
+                    e2 = e
+                    if hd.name is not None and val is not None and val[0] != 'class':
+                        e2 = e.bind(hd.name, val[0], val[1])
+                    return self.block(hd.body, e2, hctx, krest)
+                def chain(i):
+                    if i >= len(hs):
+                        # no handler applies: the exception escapes
+                        if val is not None and val[0] != 'class' and 'reraise' in self.cfg:
+                            return ctx.ret(self.cfg['reraise'].format(e=val[0]))
+                        refuse('an exception of the try body may escape all handlers', s)
+                    hd = hs[i]
+                    if hd.type is None:
+                        return run(hd)
+                    cls = ast.unparse(hd.type)
                     if val is None:
-                        refuse('handler inspects the exception of a construct whose exception value is not modelled', s)
-                    e = e.bind(hd.name, val[0], val[1])
-                return self.block(h, e, hctx, krest)
+                        if len(hs) == 1:
+                            return run(hd)           # single declared handler: the config declares the body raises only T
+                        refuse('cannot decide which handler applies (exception class not modelled)', s)
+                    if val[0] == 'class':
+                        return run(hd) if val[1] == cls else chain(i + 1)
+                    tests = self.cfg.get('handler_tests', {})
+                    if cls not in tests:
+                        return run(hd) if len(hs) == 1 else refuse('handler class %s has no test on the exception value' % cls, s)
+                    return '(if %s then %s else %s)' % (tests[cls].format(e=val[0]), run(hd), chain(i + 1))
+                return chain(0)
             bctx = Ctx(ret=ctx.ret, brk=ctx.brk, cont=ctx.cont, exc=on_exc)
             return self.block(s.body, env, bctx, lambda e: self.block(rest, e, ctx, k))
         if isinstance(s, ast.Raise) and s.exc is None:
             if not getattr(ctx, 'in_handler', False) or 'reraise' not in self.cfg:
                 refuse('bare raise outside an except handler', s)
-            return ctx.ret(self.cfg['reraise'])
+            return ctx.ret(self.cfg['reraise'].format(e=getattr(ctx, 'exc_term', None) or ''))
         if isinstance(s, ast.Raise):
             if ctx.exc is not None:
                 return ctx.exc(env, None)
@@ -873,9 +933,10 @@ class FnTranslator:
 
     def raise_term(self, s):
         e = s.exc
-        if s.cause is not None or not isinstance(e, ast.Call) or not isinstance(e.func, ast.Name) or e.keywords:
-            refuse('raise of something other than Cls(...)', s)
-        cls = e.func.id
+        if not isinstance(e, ast.Call) or not isinstance(e.func, (ast.Name, ast.Attribute)) or e.keywords \
+                or (s.cause is not None and not isinstance(s.cause, ast.Name)):
+            refuse('raise of something other than Cls(...) [from name]', s)
+        cls = ast.unparse(e.func)
         key, text = None, ''
         if len(e.args) == 1 and isinstance(e.args[0], ast.Name):
             key = e.args[0].id
@@ -922,6 +983,11 @@ class FnTranslator:
             ix, target, it = s.target.elts[0].id, s.target.elts[1], it.args[0]
         else:
             target = s.target
+        pair = None
+        if isinstance(target, ast.Tuple) and len(target.elts) == 2 and all(isinstance(e, ast.Name) for e in target.elts):
+            # for a, b in L  over a list of pairs (config pair_types: element type -> (type of a, type of b))
+            pair = (target.elts[0].id, target.elts[1].id)
+            target = ast.Name(id='pair__' + pair[0], ctx=ast.Store())
         if not isinstance(target, ast.Name):
             refuse('tuple loop target', s)
         x = target.id
@@ -948,6 +1014,13 @@ class FnTranslator:
         lname = '@L%d@' % self.ninst
         xc = self.mangle(x)
         benv = benv.bind(x, xc, ety)
+        if pair is not None:
+            if ety not in self.cfg.get('pair_types', {}):
+                refuse('for a, b in L over elements of type %s (not a declared pair type)' % ety, s)
+            ta, tb = self.cfg['pair_types'][ety]
+            if pair[0] in self.assigned(s.body) or pair[1] in self.assigned(s.body):
+                refuse('loop variable assigned in the body', s)
+            benv = benv.bind(pair[0], '(fst %s)' % xc, ta).bind(pair[1], '(snd %s)' % xc, tb)
         ixc = self.mangle(ix) if ix is not None else None
         if ix is not None:
             benv = benv.bind(ix, ixc, 'Z')
@@ -977,7 +1050,7 @@ class FnTranslator:
             S, self.res_ty, st_tuple(benv), xc, pretty(body, 6))
         real = self.emit_loop(lname, fix)
         call_prefix = call_prefix.replace(lname, real)
-        maybe = [x] + ([ix] if ix is not None else [])
+        maybe = [x] + ([ix] if ix is not None else []) + (list(pair) if pair is not None else [])
         pat = self.tuple_term([self.mangle(v) for v in state]) if state else '_'
         lterm = '(rev %s)' % lt if rev else lt
         return self.wrap(g, env, ctx, lambda e: '(match %s %s %s%s with Done r__ => %s | Continue %s => %s end)' % (
@@ -1163,6 +1236,8 @@ class FnTranslator:
             if isinstance(n, ast.Yield) and self.yields:
                 continue
             if isinstance(n, ast.Try) and self.cfg.get('allow_try'):
+                continue
+            if isinstance(n, ast.With) and self.cfg.get('allow_with'):
                 continue
             if isinstance(n, (ast.Global, ast.Nonlocal, ast.Try, ast.With, ast.Yield, ast.YieldFrom, ast.Lambda,
                               ast.Await, ast.AsyncFor, ast.AsyncWith, ast.ClassDef, ast.Import, ast.ImportFrom,
